@@ -66,8 +66,8 @@ Proof.
   unfold agg_src. destruct op; try apply H2.
   destruct (w || negb (String.eqb (str_of_expr p) metric_name)).
   - apply (quiet_dpr _ _ (dpr_exclude_metric_name _ w g)).
-    split; cbn [s_always s_dead guarantee_label include_label set_excluded set_included set_guaranteed set_operation]; congruence.
-  - split; cbn [s_always s_dead guarantee_label include_label set_excluded set_included set_guaranteed set_operation]; congruence.
+    destruct (lit_of p); split; cbn [s_always s_dead guarantee_label include_label set_excluded set_included set_guaranteed set_operation]; congruence.
+  - destruct (lit_of p); split; cbn [s_always s_dead guarantee_label include_label set_excluded set_included set_guaranteed set_operation]; congruence.
 Qed.
 
 Lemma fold_absent_dead names : forall s,
@@ -90,7 +90,7 @@ Proof.
     rewrite (ppf_absent _ _ _ _ E4) in Hd, Ha. split; assumption. }
   destruct (String.eqb (func_kind f) "timelike") eqn:E5.
   { apply String.eqb_eq in E5. specialize (Ht E5). destruct args; [congruence|]. intros _. split; assumption. }
-  destruct (String.eqb (func_kind f) "arg1") eqn:E6; [intros _; split; assumption|].
+  destruct (String.eqb (func_kind f) "arg1") eqn:E6; [intros _; destruct (lit_of (nth_error args 1)); split; assumption|].
   destruct (String.eqb (func_kind f) "vector") eqn:E7; [apply String.eqb_eq in E7; congruence|].
   intros H. discriminate.
 Qed.
